@@ -327,6 +327,43 @@ def formula_tables_agree(chk):
                           key='%s %s' % (R, n))
 
 
+def keygen_candidates_independent(chk):
+    """br_ec_keygen draws candidates until one lies in [1, n-1].  The test of a candidate (borrow of candidate - n, OR of its bytes) must be
+    computed from that candidate alone: any integer state carried from one draw to the next (an accumulator initialised once, before the
+    loop) lets a rejected candidate influence the verdict on the following one - an all-zero key or a key equal to the order is then
+    returned after certain two-draw sequences.  Structural rule: no non-constant integer value flows around the back edge of the
+    candidate loop (no loop-carried phi at a block that dominates the draw and is fed from a block the draw dominates)."""
+    R = 'keygen-candidates-independent'
+    src, fn = 'src/ec/ec_keygen.c', 'br_ec_keygen'
+    u = build.load_unit(src)
+    F = next((irf.Func(u, f) for f in u['functions'] if f['name'] == fn and f.get('blocks')), None)
+    if F is None:
+        raise AnalysisBroken('%s vanished' % fn)
+    gens = [c for c in F.calls() if c.get('callee') is None and len(c['ops']) == 3]
+    if len(gens) != 1:
+        raise AnalysisBroken('%s: the PRNG draw is not identified (%d candidates)' % (fn, len(gens)))
+    gb = F.block_of[gens[0]['id']]
+    carried = []
+    for i in F.insts.values():
+        if i['op'] != 'phi' or not i['ty'].startswith('i') or i['ty'].endswith('*'):
+            continue
+        b = F.block_of[i['id']]
+        if not F.dominates_block(b, gb):
+            continue
+        # incoming blocks: the irdump keeps them in i['inb'] when present; otherwise use predecessors order
+        preds = i.get('inb') or F.pred[b]
+        for o, pb in zip(i['ops'], preds):
+            if F.dominates_block(gb, pb) and not (o['k'] == 'c'):
+                carried.append(i)
+    inst = '%s: the range test of a candidate uses no state of the previous candidate' % fn
+    if not carried:
+        chk.ok(R, inst, F.where(gens[0]))
+    else:
+        names = sorted(set(next((d['var'] for b_ in F.blocks for d in b_['insts'] if d['op'] == 'dbgvalue' and d['ops'][0] == {'k': 'i', 'v': c['id']}), '?') for c in carried))
+        chk.violation(R, inst, F.where(carried[0]), 'variable(s) %s are carried from one draw to the next: a rejected candidate leaks into the next verdict (key 0 or key n can be returned)'
+                      % ', '.join(names), key=R)
+
+
 def rs_nonzero(chk):
     """FIPS 186-4 6.4.2 step 1: r and s must both lie in [1, n-1].  decode_mod enforces < n; each decoded value must
     additionally be zero-tested, and a positive test must force rejection."""
@@ -475,6 +512,7 @@ def run(tier):
     decode_mod_covers_source(chk)
     final_reduction_select(chk)
     formula_tables_agree(chk)
+    keygen_candidates_independent(chk)
     rs_nonzero(chk)
     muladd_zero_test(chk)
     rfc6979_inputs(chk)
